@@ -6,7 +6,7 @@ package main
 //	<tr> = grpc | http (security.AuthContext with a gRPC context / with an *http.Request)
 //	authn oidc <tr> <td> <expected audiences> <hdrform> <tokkind> <sub> <audkind> <aud>
 //	      real NewJwtAuthenticator against an in-process JWKS endpoint; tokens minted with go-jose.
-//	      hdrform: none bearer istio basic bb (Basic, Bearer tok) two (Bearer other, Bearer tok) two2 (Bearer tok, Bearer other); tokkind: garbage expired wrongiss otherkey ok; audkind: list string absent
+//	      hdrform: none bearer istio basic bb (Basic, Bearer tok) two (Bearer other, Bearer tok) two2 (Bearer tok, Bearer other); tokkind: garbage expired wrongiss otherkey ok okfloat expiredfloat (fractional exp); audkind: list string absent
 //	authn kube <tr> <td> <primary> <aliases a=b,..> <remotes|nil> <clusterid hdr|-> <hdrform> <token> <TokenAudiences> <review>
 //	      real NewKubeJWTAuthenticator over fake clientsets whose TokenReview reactor is scripted and
 //	      records the submitted Spec (token, audiences) and the cluster asked.
@@ -144,6 +144,11 @@ func (f *oidcFixture) token0(kind, sub, audKind string, aud []string) (string, e
 		return "not.a.jwt", nil
 	case "expired":
 		claims["exp"] = time.Now().Add(-time.Hour).Unix()
+	case "okfloat":
+		// NumericDate may be a non-integer (RFC 7519): the verifier accepts it
+		claims["exp"] = float64(time.Now().Add(time.Hour).Unix()) + 0.5
+	case "expiredfloat":
+		claims["exp"] = float64(time.Now().Add(-time.Hour).Unix()) + 0.5
 	case "wrongiss":
 		claims["iss"] = "https://other.example.com"
 	case "otherkey":
